@@ -307,10 +307,16 @@ def c18(ctx):
         explanation='R-WORDGEOM: word/bit addressing constants of get/set/flip and of the allocator are mutually consistent with the '
         'word type. R-HW8: the byte popcount table is exact (exhaustive). R-BITLOOP: the bit-serial popcount visits every bit. '
         'R-IDX-GUARD: guarded row/column indices are compared strictly with the dimension the indexed array was allocated with. '
-        'R-OWN-FIELD: the destructor releases both allocations. R-PAIRSWAP: the solver exchanges right-hand sides with rows.',
-        decides=['bit addressing geometry, popcount table, bit-loop trip count, index guards vs extents, row/constant-term swap pairing'],
+        'R-OWN-FIELD: the destructor releases both allocations. R-PAIRSWAP: the solver exchanges right-hand sides with rows. '
+        'R-SWAR: of_popcount_3 and of_hweight32 are proven to return the population count for every input (abstract interpretation '
+        'in the domain of integer linear forms over the input bits; every shift, mask, add and multiply is discharged as carry-free). '
+        'R-HW32-TABLE: the table popcount adds the exact table over the four distinct bytes. R-HW-ARRAY: of_hweight_array reads exactly '
+        'the words holding bits [0,size), each byte once, and sums one proven popcount per word (all size classes of the period). '
+        'R-KEA (XOR kernels only): the symbol arithmetic the solver uses is byte-exact for every length.',
+        decides=['bit addressing geometry, popcount table, all four popcount helpers and the array popcount for every input, bit-loop trip '
+                 'count, index guards vs extents, row/constant-term swap pairing, scratch reset, row fill, XOR kernel extents and values'],
         not_decided=['that get/set/copy/weights equal the bit-matrix model for all dimensions; that the solver returns the unique solution '
-                     'iff full column rank (value-level)', 'the SWAR popcount formulas (of_popcount_3, of_hweight32)'],
+                     'iff full column rank (value-level)'],
         exhaustive=False)
 
 
